@@ -115,6 +115,12 @@ def adversarial(rng, doc):
         # quoted keys that begin with the variable sigil (`%`), keys that look like other tokens
         "quoted-key-percent": "rule x {\n %s.\"%% used\" exists or %s exists\n}\nrule y {\n %s['%%'] == 3\n}\nrule z {\n \"%%\" exists\n %s.\"%%1a\" !exists\n}" % (k, k, k, k),
         "quoted-key-odd-tokens": "rule x {\n %s.\"*\" exists or %s.\"[*]\" exists\n %s.\"this\" !exists or %s.\"keys\" exists\n}\nrule y {\n \"\" exists or %s.\"\" exists\n %s.\"a.b\" exists or %s.\" \" exists\n}" % (k, k, k, k, k, k, k),
+        # filters whose members are not plain clauses: `when` blocks, query blocks, calls of parameterised rules, references (all grammatical)
+        "filter-with-block-members": ("rule pf(v) {\n %%v exists\n}\nrule helper {\n %s exists\n}\n"
+                                      "rule a {\n %s[ when this exists { this exists } ] exists or %s exists\n Resources.*[ when Properties.Tags exists { Type == 'AWS::S3::Bucket' } ].Properties.BucketName exists or %s exists\n}\n"
+                                      "rule b {\n Resources.*[ Properties { a exists } ].Type exists or %s !exists\n this.*[ pf(this) ] exists or %s exists\n}\n"
+                                      "let fl = Resources.*[ when Type exists { Type == 'T' } ]\nrule c {\n %%fl.zz.yy exists or %s exists\n zz_missing.more[ when a exists { b { c exists } } ].d !exists\n}\n"
+                                      "rule d {\n this.*[ helper ] exists or %s exists\n}") % (k, k, k, k, k, k, k, k),
         "wrong-arity": "rule p(a, b) { %%a == %%b }\nrule x { p(%s) }" % k,
         "unknown-param-rule": "rule x { nosuch(%s) }" % k,
         "unknown-variable": "rule x { %%nosuch == 1 }",
